@@ -308,6 +308,9 @@ def main():
         for lp in prov.get('lemmas', []):
             ltext = '\n'.join(U['text'].split('\n')[lp['gen_lines'][0] - 1:lp['gen_lines'][1]])
             names = re.findall(r'proof fn (\w+)', ltext)
+            lm = re.search(r'// @lemma-for: ([\w, ]+)', ltext)
+            if lm and pid not in [x.strip() for x in lm.group(1).split(',')]:
+                continue
             bad = any(f['function'] is None and f.get('region') == lp['file'] for f in cl['failures'])
             obligations += len(names)
             if not bad:
